@@ -27,6 +27,8 @@ func inBubble(t *testing.T, f func()) (res bubbleResult) {
 			msg := fmt.Sprint(p)
 			if strings.Contains(msg, "deadlock") || strings.Contains(msg, "blocked goroutines remain") {
 				res.Deadlock = msg
+				buf := make([]byte, 1<<20)
+				res.Stack = string(buf[:runtime.Stack(buf, true)])
 			} else {
 				res.Panic = msg
 				buf := make([]byte, 1<<16)
@@ -63,4 +65,26 @@ func gohbaseGoroutines() []string {
 		}
 	}
 	return out
+}
+
+// bubbleStacks keeps the goroutines of a full dump that are blocked inside a
+// synctest bubble ("(durable)" / "synctest" markers) or mention gohbase / the
+// harness, to explain a deadlock.
+func bubbleStacks(dump string) string {
+	var out []string
+	for _, g := range strings.Split(dump, "\n\n") {
+		if strings.Contains(g, "synctest") || strings.Contains(g, "gohbase") || strings.Contains(g, "verifharness/sim") || strings.Contains(g, "verifharness/memconn") {
+			if strings.Contains(g, "bubbleStacks") || strings.Contains(g, "testing.tRunner") && !strings.Contains(g, "gohbase") {
+				continue
+			}
+			if len(g) > 1500 {
+				g = g[:1500]
+			}
+			out = append(out, g)
+		}
+	}
+	if len(out) > 12 {
+		out = out[:12]
+	}
+	return strings.Join(out, "\n\n")
 }
